@@ -86,7 +86,7 @@ func checkC03(c caseC03, rec *ev.Rec) *ev.Failure {
 		if c.Prior != "" {
 			priorDecode("xz", b.Stream, dc, c.Prior, c.PriorAt)
 		}
-		r, err := xz.ReaderConfig{DictCap: dc}.NewReader(bytes.NewReader(b.Stream))
+		r, err := xz.ReaderConfig{DictCap: dc}.NewReader(sourceFor(b.Stream))
 		if err != nil {
 			return ev.Fail(fmt.Sprintf("NewReader(DictCap %d) rejects a valid %s stream: %v", dc, c.Src.Origin, err), "stage", "open", "origin", c.Src.Origin, "err", err.Error())
 		}
